@@ -15,7 +15,8 @@ def queries(tier):
                 desc="two default-constructed Map objects in differently filled memory, both written: identical bytes"),
           Query("art_default", "C18_determinism.cpp", "h_art_default", C10.shape(0, 0, 0), unwind=200, timeout=900,
                 desc="two default-constructed ArtFile objects in differently filled memory, both written: identical bytes")]
-    for d in C06.shapes(tier)[1:4]:
+    # (the last shape has its EMPTY-named tileset source first: a value left over from an earlier loop iteration would be deterministic, fresh garbage is not)
+    for d in C06.shapes(tier)[2:5] + [C06.shape(2, 2, nts=2, tsl0=0, tsl1=3, nmap=0, ngrp=1, gw=2, gh=1, gnl=2)]:
         qs.append(Query("map_parse_" + C06.sname(d), "C18_determinism.cpp", "h_map_parse", d, unwind=C06.maxlen(d) + 30, timeout=900,
                         desc="map bytes of shape %s parsed twice into differently filled memory: equal maps, identical bytes when written" % C06.sname(d)))
     for d in [C10.shape(0, 0, 1, 1, 3, 2, 1), C10.shape(0, 0, 2, 2, 1, 0, 0)]:
